@@ -739,15 +739,21 @@ func runCheck(prop string, cfg *propCfg, tier string, seed uint64, runsOverride 
 	searchS := time.Since(start).Seconds() - buildS
 
 	// determinism sample: re-execute some runs in a second process with another GOMAXPROCS
-	code, hist := determinismSample(b, prop, tier, seed, all)
-	if code != 0 {
-		return code
+	detCode, hist := determinismSample(b, prop, tier, seed, all)
+	var histLines []string
+	if detCode == 0 {
+		histLines = reportHistory(b, prop, tier, seed, hist)
 	}
-	histLines := reportHistory(b, prop, tier, seed, hist)
+	// a violation that reproduces from its replay file in a fresh process stands on its own, whatever else is going on;
+	// only when there is none does an unexplained difference between two executions of the same run make the whole
+	// check inconclusive (exit 2)
 	rc := aggregate(b, prop, cfg, tier, seed, all, start, buildS, searchS)
 	for _, l := range histLines {
 		fmt.Println(l)
 		rc = 1
+	}
+	if rc == 0 && detCode != 0 {
+		return detCode
 	}
 	return rc
 }
@@ -976,6 +982,7 @@ func aggregate(b *build, prop string, cfg *propCfg, tier string, seed uint64, al
 
 	findings := loadFindings()
 	exit := 0
+	unreproduced := 0
 	minStart := time.Now()
 	knownSeen := map[string]int{}
 	var newViolLines []string
@@ -999,8 +1006,9 @@ func aggregate(b *build, prop string, cfg *propCfg, tier string, seed uint64, al
 			path, ok = warmViolation(b, prop, tier, seed, first.v, first.r.Idx)
 		}
 		if !ok {
-			fmt.Fprintf(os.Stderr, "vcheck: violation %s of run %d did not reproduce in a fresh process: harness nondeterminism (not a verdict)\n", k, first.r.Idx)
-			return 2
+			fmt.Fprintf(os.Stderr, "vcheck: violation %s of run %d did not reproduce in a fresh process (not reported)\n", k, first.r.Idx)
+			unreproduced++
+			continue
 		}
 		exit = 1
 		newViolLines = append(newViolLines, fmt.Sprintf("VIOLATION property=%s replay=%s", prop, path))
@@ -1065,6 +1073,10 @@ func aggregate(b *build, prop string, cfg *propCfg, tier string, seed uint64, al
 	writeEvidence(prop, ev)
 	for _, l := range newViolLines {
 		fmt.Println(l)
+	}
+	if exit == 0 && unreproduced > 0 {
+		fmt.Fprintf(os.Stderr, "vcheck: %d violation classes did not reproduce in a fresh process and none did: harness nondeterminism (not a verdict)\n", unreproduced)
+		exit = 2
 	}
 	fmt.Printf("%s %s: %d runs (%d distinct non-trivial), %d shapes, sim %.0fs, build %.1fs search %.1fs, violations(new)=%d known=%d\n",
 		prop, tier, len(all), len(keys), len(shapes), float64(simNs)/1e9, buildS, searchS, len(newViolLines), len(knownSeen))
